@@ -20,6 +20,16 @@ from .spi_common import FILE, SPI
 AFILE = "hdc/algo/accessors.py"
 
 
+def _regrouped(repo) -> str:
+    """Name that holds the dense re-encoding of the group labels in spi (today the re-bound parameter `groups`; C09 decides the pipeline itself)."""
+    m = repo.method("hdc.algo.accessors", "PixelAlgorithms", "spi")
+    for st in ast.walk(m):
+        if isinstance(st, ast.Assign) and isinstance(st.value, ast.Call) and ast.unparse(st.value.func) == "to_linspace" \
+                and isinstance(st.targets[0], ast.Tuple) and st.targets[0].elts and isinstance(st.targets[0].elts[0], ast.Name):
+            return st.targets[0].elts[0].id
+    return "groups"
+
+
 def run(repo: Repo, tier: str) -> Report:
     rep = Report("C07")
     rep.decided = [
@@ -255,7 +265,7 @@ def run(repo: Repo, tier: str) -> Report:
                    {"nodata": "nodata", "cal_start": "calstart_ix", "cal_stop": "calstop_ix"}, f"kwargs = {kw}", "kwargs of gammastd_yxt site", line=s.line)
         else:
             rep.ob("R-BIND", AFILE, s.where(), "grouped site passes (groups, num_groups, nodata, cal_indices) in the kernel's order",
-                   [ast.unparse(a) for a in s.args] == ["self._obj", "groups", "num_groups", "nodata", "cal_indices"],
+                   [ast.unparse(a) for a in s.args] == ["self._obj", _regrouped(repo), "num_groups", "nodata", "cal_indices"],
                    f"args = {[ast.unparse(a) for a in s.args]}", "args of gammastd_grp site", line=s.line)
     from ..rules import r_truthy
     r_truthy(rep, repo, "PixelAlgorithms", "spi", ["nodata"], "0 is a legitimate nodata value (it is the one the test-suite uses); a truth test silently replaces or drops it")
